@@ -140,11 +140,13 @@ func getFlateReader(r io.Reader, dict []byte) io.Reader {
 	if !ok {
 		return flate.NewReaderDict(r, dict)
 	}
+	verifPool("flateReader", "get", fr)
 	fr.(flate.Resetter).Reset(r, dict)
 	return fr
 }
 
 func putFlateReader(fr io.Reader) {
+	verifPool("flateReader", "put", fr)
 	flateReaderPool.Put(fr)
 }
 
@@ -156,11 +158,13 @@ func getFlateWriter(w io.Writer) *flate.Writer {
 		fw, _ = flate.NewWriter(w, flate.BestSpeed)
 		return fw
 	}
+	verifPool("flateWriter", "get", fw)
 	fw.Reset(w)
 	return fw
 }
 
 func putFlateWriter(w *flate.Writer) {
+	verifPool("flateWriter", "put", w)
 	flateWriterPool.Put(w)
 }
 
@@ -201,6 +205,7 @@ func (sw *slidingWindow) init(n int) {
 	sw2, ok := p.Get().(*slidingWindow)
 	if ok {
 		*sw = *sw2
+		verifPool("slidingWindow", "get", sw)
 	} else {
 		sw.buf = make([]byte, 0, n)
 	}
@@ -209,6 +214,7 @@ func (sw *slidingWindow) init(n int) {
 func (sw *slidingWindow) close() {
 	sw.buf = sw.buf[:0]
 	swPoolMu.Lock()
+	verifPool("slidingWindow", "put", sw)
 	swPool[cap(sw.buf)].Put(sw)
 	swPoolMu.Unlock()
 }
